@@ -92,7 +92,8 @@ class Engine(ExprMixin, CallMixin, ContractMixin, BuiltinMixin, StmtMixin, LoopM
     def __init__(self, reg=None, repo=None, ext_exc=None, feas_timeout_ms=300, max_steps=200000):
         self.reg = reg or REG
         self.repo = repo
-        self.ext_exc = dict(ext_exc or {})
+        self.ext_exc = dict(self.reg.ext_exc)
+        self.ext_exc.update(ext_exc or {})
         self.const_cache = {}
         self.class_ids = {}
         self.obligations: list[Obligation] = []
